@@ -222,6 +222,7 @@ def facts():
     f.update(order_facts())
     f.update(macro_facts())
     f.update(iter_facts())
+    f.update(resolve_facts())
     return f
 
 
@@ -246,7 +247,8 @@ def emit(f):
               "task_parsystem_self_send", "task_parsystem_views_send", "task_parsystem_res_send", "task_parsystem_entry_send",
               "clear_sets_length_first", "adopt_requires_no_allocation",
               "entities_macro_evaluates_size_once", "entities_macro_unchecked_arms_known",
-              "iter_fold_folds_current_first", "iter_next_drains_current_first"]:
+              "iter_fold_folds_current_first", "iter_next_drains_current_first",
+              "alloc_get_checks_generation", "alloc_is_active_checks_generation", "resolution_sites_use_allocator"]:
         o.append("Definition fact_%s : bool := %s." % (k, b(f[k])))
     o.append("Definition world_literal_sites : list string := [%s]." % "; ".join('"%s"' % s for s in f["literal_sites"]))
     o.append("Definition batch_literal_sites : list string := [%s]." % "; ".join('"%s"' % s for s in f["batch_literal_sites"]))
@@ -449,6 +451,28 @@ def iter_facts():
     j1 = nx.find("ifletSome(refmutresults)=self.current_results_iter{ifletresult@Some(_)=results.next(){returnresult;}}")
     j2 = nx.find("self.archetypes_iter.find(")
     f["iter_next_drains_current_first"] = 0 <= j1 < j2 and nx.startswith("loop{")
+    return f
+
+
+# ---------------------------------------------------------------------------------------------
+# Where identifiers are resolved (C02): the allocator's accessors compare the generation, and every site uses them
+
+def resolve_facts():
+    f = {}
+    a = read("src/entity/allocator/mod.rs")
+    bodies = {n: norm(b) for q, n, b in fn_bodies(a) if n in ("get", "is_active")}
+    f["alloc_get_checks_generation"] = bodies.get("get") == "letslot=self.slots.get(identifier.index)?;ifslot.generation==identifier.generation{slot.location}else{None}"
+    f["alloc_is_active_checks_generation"] = bodies.get("is_active") == "ifletSome(slot)=self.slots.get(identifier.index){ifslot.is_active()&&slot.generation==identifier.generation{returntrue;}}false"
+    w = read("src/world/mod.rs")
+    wb = {n: norm(b) for q, n, b in fn_bodies(w) if n in ("contains", "entry", "remove")}
+    e = read("src/query/entries.rs")
+    eb = [norm(b) for q, n, b in fn_bodies(e) if n == "entry"]
+    ok = (wb.get("contains", "") == "self.entity_allocator.is_active(entity_identifier)"
+          and "self.entity_allocator.get(entity_identifier)" in wb.get("entry", "")
+          and wb.get("remove", "").startswith("ifletSome(location)=self.entity_allocator.get(entity_identifier){")
+          and len(eb) == 1 and eb[0].startswith("unsafe{&*self.world}.entity_allocator.get(entity_identifier)")
+          and ".slots" not in eb[0] and ".slots" not in wb.get("entry", "") and ".slots" not in wb.get("remove", ""))
+    f["resolution_sites_use_allocator"] = ok
     return f
 
 
